@@ -81,6 +81,17 @@ ASSUMPTIONS = [
     "(measured: 4e-7 at t=300, 3e-3 at t=3000, 8e-2 at t=9000)",
     "fL (growth index) itself is not checked against the growth ODE: it is "
     "documented only as the usual approximation",
+    "Schwarzschild: the horizon r = M/2 (alpha = 0, degenerate 4-metric) is "
+    "a coordinate singularity of the slicing and is excluded together with "
+    "r = 0; null_ray_exp_out is D_i s^i + K_ij s^i s^j - K for the unit "
+    "normal of the coordinate spheres about the origin (aurel's "
+    "null_ray_expansion with the default centre), computed from the exact "
+    "gamma, d gamma",
+    "Szekeres F and dtZ are proportional to Amp (1 - sin(k z)); their "
+    "numeric/symbolic comparison allows the float64 condition number "
+    "2 / (1 - sin(k z)) of that factor",
+    "Rosquist_Jantzen's docstring claims a tilted gamma-law perfect fluid: "
+    "T^a_b must satisfy (T - p)(T + rho) = 0 with p = (gamma - 1) rho",
     "module globals are modified only for the three call-time parameters "
     "and restored afterwards",
 ]
@@ -574,10 +585,6 @@ def point_checks(name, mod, num, i, p, par, geo, lam, tol, obs, note):
             sc = n2[1:, 1:]
         err = np.max(np.abs(np.asarray(got, float) - want) / sc)
         grade(note, "metric-forms:" + fn, err, 1.0, obs, tol=1e-12)
-    if name == "EdS":
-        # no symbolic form: the assembled numeric metric is the reference
-        pass
-
     # lapse / shift functions agree with the 4-metric ----------------------
     if "alpha" in num and name != "EdS":
         a = float(at(num["alpha"], i))
@@ -634,7 +641,7 @@ def point_checks(name, mod, num, i, p, par, geo, lam, tol, obs, note):
         grade(note, "uup4:norm", abs(u @ geo.g @ u + 1.0), 1.0, obs,
               tol=1e-12)
 
-    # (d) closed-form extras ---------------------------------------------------
+    # (d) closed-form extras ----------------------------------------------
     if name == "Schwarzschild_isotropic":
         kr = float(at(num["Kretschmann"], i))
         grade(note, "Kretschmann", abs(kr - float(geo.c4["Kr"])),
